@@ -18,6 +18,9 @@ enum Beh {
     ErrBeforeReply,
 }
 
+#[cfg(feature = "alt")]
+impl ractor::Message for Msg {}
+
 enum Msg {
     Req { id: u32, beh: Beh, reply: RpcReplyPort<u32> },
     Fwd(u32),
@@ -35,6 +38,7 @@ fn value(index: u32, id: u32) -> u32 {
     index * 1000 + id
 }
 
+#[cfg_attr(feature = "alt", ractor::async_trait)]
 impl Actor for Callee {
     type Msg = Msg;
     type State = Vec<RpcReplyPort<u32>>;
